@@ -865,5 +865,27 @@ RunSession(chunks, cap, tr) ==
     LET names == SetToSeq(AssignedChunks(chunks, 1))
         fr == NewFrame(M0(cap, tr), names, [i \in 1..Len(names) |-> UnboundV])
     IN RunChunks(chunks, 1, <<fr.a>>, fr.m, <<>>)
+(* ------------------------------------------------------------------ freezing and loading
+   Module A is evaluated, then frozen: every list and dict that exists becomes immutable for ever
+   (values are preserved: nothing else changes).  Importing modules see A's names (load) in an
+   enclosing frame and bind their own names in a fresh frame; each importer is a session. *)
+FreezeAll(m) ==
+    [m EXCEPT !.heap = [a \in 1..Len(m.heap) |->
+                          IF m.heap[a].kind \in {"list", "dict"} THEN [m.heap[a] EXCEPT !.frozen = TRUE] ELSE m.heap[a]]]
+RECURSIVE RunImporters(_, _, _, _, _)
+RunImporters(mods, i, frA, m, acc) ==
+    IF i > Len(mods) THEN acc
+    ELSE LET names == SetToSeq(AssignedChunks(mods[i], 1))
+             fr == NewFrame(m, names, [j \in 1..Len(names) |-> UnboundV])
+             r == RunChunks(mods[i], 1, <<fr.a, frA>>, fr.m, <<>>)
+         IN RunImporters(mods, i + 1, frA, r.m, Append(acc, r.res))
+RunFrozen(chunkA, mods, cap) ==
+    LET names == SetToSeq(AssignedS(chunkA, 1))
+        fr == NewFrame(M0(cap, FALSE), names, [i \in 1..Len(names) |-> UnboundV])
+        a == ExecB(chunkA, 1, <<fr.a>>, fr.m)
+        f == FreezeAll([a.m EXCEPT !.out = <<>>])
+    IN [a |-> [out |-> a.m.out, err |-> a.m.err],
+        mods |-> IF Ok(a.m) THEN RunImporters(mods, 1, fr.a, f, <<>>) ELSE <<>>]
+
 SessionInDomain(res) == \A i \in 1..Len(res) : res[i].err.kind # "spec_domain"
 =============================================================================
